@@ -74,6 +74,11 @@ SNIPPETS = [
     ("exec", "x = (1, 2)\ndef f(a=1, b=2):\n    return a + b\ny = (1, 2)\nz = (1, 2)\n"),
     # one name that is a cell AND a free variable of the same code object (the class body of A)
     ("exec", "def outer():\n    __class__ = 'own'\n    class A:\n        y = __class__\n        def g(self):\n            return super().g()\n    return A\n"),
+    # class bodies that own a cell (__class__) AND read variables of enclosing functions (LOAD_CLASSDEREF indexes
+    # cellvars + freevars), one nested in another; a function whose parameter is a cell next to free variables
+    ("exec", "def f(a, b):\n    class C:\n        x = a\n        y = b\n        def m(self):\n            return super().m()\n    return C\n"),
+    ("exec", "def f(a, b):\n    class C:\n        x = b\n        class D:\n            z = a, b\n            def m(self): return __class__, a\n        def m(self): return __class__\n    return C\n"),
+    ("exec", "def f(a, b, c):\n    def g(b, d):\n        def h(): return a, b, c, d\n        return h, c, a\n    return g\n"),
     ("exec", "def f(x):\n" + "".join("    x = x * 2\n" for _ in range(60)) + "    for i in x:\n        if i:\n            break\n    else:\n        return 0\n    return i\n"),
 ]
 
